@@ -1,6 +1,7 @@
 package main
 
 import (
+	"regexp"
 	"golang.org/x/tools/go/ssa"
 	"strconv"
 	"encoding/json"
@@ -120,6 +121,8 @@ func fnHasLoop(fn *ssa.Function) bool {
 // Functions whose claimed obligations disappeared are caught later by the ordinary dirty logic;
 // for the monotone-counter phase a function with existing claims keeps its accepted counters.
 var forceDirty = map[string]bool{}
+var trustClean bool
+var dirtyRe *regexp.Regexp
 var claimsFnCache map[string]bool
 
 func claimsDirty(prop, qual string) bool {
@@ -162,6 +165,14 @@ func cmdCheck(args []string) {
 			genClaims = true
 		case "--incremental":
 			incremental = true
+		case "--trust-clean":
+			// with --incremental: do not re-solve the claimed obligations of clean functions
+			incremental = true
+			trustClean = true
+		case "--dirty":
+			// with --incremental: regexp over function names to regenerate regardless of their claims
+			i++
+			dirtyRe = regexp.MustCompile(args[i])
 		case "--budget":
 			i++
 			fmt.Sscanf(args[i], "%d", &budgetOverride)
@@ -219,7 +230,7 @@ func cmdCheck(args []string) {
 			if !hasProp(ct.Properties, prop) || ct.IfaceMethod || ct.Fn == nil || ct.Trusted || !fnHasLoop(ct.Fn) {
 				continue
 			}
-			if incremental && !claimsDirty(prop, ct.Qual) && os.Getenv("MLRVC_REMONO") == "" {
+			if incremental && !claimsDirty(prop, ct.Qual) && os.Getenv("MLRVC_REMONO") == "" && !(dirtyRe != nil && dirtyRe.MatchString(ct.Qual)) {
 				for k := range oldAccepted {
 					if strings.HasPrefix(k, ct.Qual+"#") {
 						monoAccepted[k] = true
@@ -360,7 +371,7 @@ func cmdCheck(args []string) {
 			for _, o := range r.Obls {
 				present[o.Name] = true
 			}
-			if !hasClaim[r.Name()] || forceDirty[r.Name()] {
+			if !hasClaim[r.Name()] || forceDirty[r.Name()] || (dirtyRe != nil && dirtyRe.MatchString(r.Name())) {
 				dirtyFn[r.Name()] = true
 			}
 		}
@@ -376,6 +387,9 @@ func cmdCheck(args []string) {
 		}
 		base := strings.TrimSuffix(strings.TrimSuffix(o.Name, "@outside-known-region"), "@known-region")
 		if genClaims && incremental {
+			if trustClean {
+				return dirtyFn[funcOfObl(base)]
+			}
 			return claims.names[base] || dirtyFn[funcOfObl(base)]
 		}
 		if genClaims {
